@@ -112,7 +112,7 @@ func c26(c *core.Ctx) {
 		rR.Bad("Gateway:rpc-methods", iface.Obj().Pos(), "fewer RPC methods found than the service defines")
 	}
 
-	rG := c.Rule("C26.goroutine", "every goroutine started in the gateway (go statement or function literal passed to a Go helper) recovers at its root, or wraps each processed item in a function literal that recovers", 2)
+	rG := c.Rule("C26.goroutine", "every goroutine started in the gateway (go statement or function literal passed to a Go helper) recovers at its root, or wraps each processed item in a function literal that recovers; a worker that consumes a channel in a loop must recover per item (a root recover ends the worker and strands the queue)", 2)
 	for _, f := range p.FuncsIn(pkgGateway) {
 		if f.Decl.Body == nil {
 			continue
@@ -135,6 +135,24 @@ func c26(c *core.Ctx) {
 				return true
 			}
 			ok2 := hasRootRecover(p, info, lit.Body)
+			// a worker - a goroutine that consumes a channel in a loop - must survive a bad item: a recover at
+			// its root ends the worker, the rest of the queue is never consumed (the response under-reports,
+			// and a producer with a full queue blocks forever with the system lock held)
+			isWorker := false
+			ast.Inspect(lit.Body, func(y ast.Node) bool {
+				if inner, isInner := y.(*ast.FuncLit); isInner && inner != lit {
+					return false
+				}
+				if rs, isRange := y.(*ast.RangeStmt); isRange {
+					if _, isChan := info.TypeOf(rs.X).Underlying().(*types.Chan); isChan {
+						isWorker = true
+					}
+				}
+				return true
+			})
+			if isWorker {
+				ok2 = false
+			}
 			if !ok2 {
 				// per-item recover: every statement list of a loop body consists of immediately invoked literals that recover,
 				// and nothing outside such literals calls into the engine
